@@ -890,6 +890,7 @@ func runC13(ctx *Ctx) {
 	known := ValOpts{Null: true, Small: true, NoInf: true}
 	sprinkled := ValOpts{Null: true, Small: true, Unknown: true, Marks: true, DynVal: true, NoInf: true}
 	c13Exhaustive(ctx)
+	c13D13(ctx)
 	n := ctx.N(450, 12000)
 	for _, name := range c13Names {
 		for i := 0; i < n; i++ {
